@@ -1,5 +1,7 @@
 // C11 implementation side: REAL momo::HashSet / HashMap under allocation refusal and throwing hash.
-// case line:   <kind> <keycat F|S> <dist> <logStart> <S|M> | <op> <op> ... [| <annotation, ignored here>]
+// keycat: F fast-hash uint64 keys; S slow-hash kit::ElemNtm keys (buckets keep hash bits, the hash is recomputed only
+//   when they do not suffice); T slow-hash keys with buckets that keep no hash bits (every migration recomputes the hash)
+// case line:   <kind> <keycat F|S|T> <dist> <logStart> <S|M> | <op> <op> ... [| <annotation, ignored here>]
 //   op:  i<k>[a<n>|f<n>]  Insert key k (armed: the n-th memory-manager allocation / n-th hash call of this op throws)
 //        r<k> Remove(key)   q<k> Find   v<n>[a<n>|f<n>] Reserve(n)   t  traversal   c  GetCount
 // mode "sched" (argv[1]): print the observed static facts + failure schedule of every op (input of the Coq model),
@@ -8,19 +10,18 @@
 #include "private_access.h"
 #include "momo/HashSet.h"
 #include "momo/HashMap.h"
-#include "momo/details/HashBucketLimP.h"
 #include "momo/details/HashBucketOne.h"
 #include "kit.h"
 using namespace momo;
 typedef unsigned long long ull;
 using kit::W;
 
-template<typename HB, bool fast>
+template<typename HB, bool fast, bool part = !fast>
 struct Traits
 {
 	typedef HB HashBucket;
 	static const bool isFastNothrowHashable = fast;
-	template<typename ItemTraits> using Bucket = typename HB::template Bucket<ItemTraits, !fast>;
+	template<typename ItemTraits> using Bucket = typename HB::template Bucket<ItemTraits, part>;
 	template<typename KeyArg> using IsValidKeyArg = std::false_type;
 	int dist; size_t logStart;
 	Traits(int d = 0, size_t ls = 4) : dist(d), logStart(ls) {}
@@ -142,7 +143,7 @@ template<typename Ad, typename Tr> static void run_case(int dist, size_t logStar
 				int h = 0, af = 0, r = 0; long m = -1;
 				bool refusedNow = fired && armA == 0 && grow;
 				if (res == "E") h = 1;
-				else if (res == "B") { if (refusedNow) r = 1; else af = 1; }
+				else if (res == "B") { if (refusedNow || kind == 'v') r = 1; else af = 1; }
 				else if (fired)
 				{
 					if (refusedNow) r = 1;
@@ -233,6 +234,7 @@ template<typename HB> static bool run_kind(const std::string& keycat, const std:
 {
 	if (keycat == "F" && sm == "S") { typedef Traits<HB, true> Tr; run_case<SetAd<uint64_t, Tr>, Tr>(dist, ls, ops, sched); return true; }
 	if (keycat == "S" && sm == "S") { typedef Traits<HB, false> Tr; run_case<SetAd<kit::ElemNtm, Tr>, Tr>(dist, ls, ops, sched); return true; }
+	if (keycat == "T" && sm == "S") { typedef Traits<HB, false, false> Tr; run_case<SetAd<kit::ElemNtm, Tr>, Tr>(dist, ls, ops, sched); return true; }
 #ifdef C11_MAPS
 	if (keycat == "F" && sm == "M") { typedef Traits<HB, true> Tr; run_case<MapAd<uint64_t, Tr>, Tr>(dist, ls, ops, sched); return true; }
 	if (keycat == "S" && sm == "M") { typedef Traits<HB, false> Tr; run_case<MapAd<kit::ElemNtm, Tr>, Tr>(dist, ls, ops, sched); return true; }
@@ -264,9 +266,7 @@ int main(int argc, char** argv)
 		else if (kind == "O3") ok = run_kind<HashBucketOpen2N2<3>>(keycat, sm, dist, ls, ops, sched);
 		else if (kind == "O8") ok = run_kind<HashBucketOpen8>(keycat, sm, dist, ls, ops, sched);
 #else
-		if (kind == "P2") ok = run_kind<HashBucketLimP<2, MP1>>(keycat, sm, dist, ls, ops, sched);
-		else if (kind == "P8") ok = run_kind<HashBucketLimP<8, MP1>>(keycat, sm, dist, ls, ops, sched);
-		else if (kind == "N1") ok = run_kind<HashBucketOne<>>(keycat, sm, dist, ls, ops, sched);
+		if (kind == "N1") ok = run_kind<HashBucketOne<>>(keycat, sm, dist, ls, ops, sched);
 #endif
 		if (!ok) puts("?");
 	}
